@@ -260,7 +260,9 @@ func runC04(r *core.Run) (bool, string) {
 		for _, j := range bySet[ds] {
 			switch j.status {
 			case "crashed":
-				r.Inconclusive("goose-crashed-on-layout")
+				// a layout (order of declarations / split over files) of an accepted package on which goose
+				// aborts yields no definition at all
+				r.Violate("goose-crash-on-layout", fmt.Sprintf("goose aborts on one layout of a declaration set (%d layouts of this set were run)", len(bySet[ds])), map[string]interface{}{"package": j.rel, "layout": j.k, "stderr": clip(j.errTxt, 4000)})
 				continue
 			case "load-failed":
 				r.Inconclusive("layout-does-not-load")
